@@ -163,6 +163,12 @@ def run(kind, prob, x0, settings, precond="exact", script=None, bounds=None, pre
         try:
             if kind == "tr":
                 xr, flag = EquationSolver.trust_region_minimize(proxy, x0, settings, callback=cb)
+            elif kind == "sub":
+                from optimism import EquationSolverSubspace
+                xr = EquationSolverSubspace.trust_region_subspace_minimize(proxy, x0, settings, callback=cb)
+                flag = False          # this driver returns the point only (no success flag)
+                if xr is None:
+                    raise RuntimeError("returned None (iteration cap reached without a return statement)")
             else:
                 xr, flag = TrustRegionSPG.bound_constrained_trust_region_minimize(proxy, x0, np.array(bounds), settings, callback=cb)
         except Exception as ex:  # noqa
@@ -184,7 +190,7 @@ def run(kind, prob, x0, settings, precond="exact", script=None, bounds=None, pre
             my = measure(np.array(info["x"]))
             myn = float(np.linalg.norm(my))
             gxc = float(np.linalg.norm(measure(np.array(info["xc"]))))
-            conv = bool((my @ my) < tol ** 2) if kind == "tr" else bool(myn < tol)
+            conv = bool((my @ my) < tol ** 2) if kind in ("tr", "sub") else bool(myn < tol)
             ev.append(dict(e="Trial", rho=rho_class(info, settings), resNW=bool(myn <= gxc), conv=conv,
                            code=info["code"] or ""))
         elif item[0] == "update_precond":
